@@ -1,4 +1,5 @@
 """C01 - ECDSA signing: signatures verify, are canonical (low-S, strict DER), no nonce reuse."""
+import os
 import hashlib
 from common import case
 from c03 import CURVES, ref_mul, ref_add, N, P, GX, GY
@@ -82,7 +83,31 @@ def _sig_verify(cname, sg, pk, msg, pre):
         return bits.sig_verify(sg, pk, msg, msg_preimage=pre) == "OK"
 
 
-IMPL = {"sign_verify": _sign_verify, "sign": _sign, "verify": _verify, "der_enc": _der_enc, "der_dec": _der_dec, "sig": _sig, "sig_verify": _sig_verify}
+_SH = {1: "all", 2: "none", 3: "single"}
+
+
+def _cli_sig(cname, draws, key, msg, flag, pre, fi, fo):
+    """`bits sig <msghex> --sighash .. [--anyone-can-pay] [--msg-preimage] -1 fi -0 fo` with the key on stdin"""
+    import cli, cliutil, curvectx
+    argv = ["sig", msg.hex(), "--sighash", _SH[flag & 0x7f]] + (["--anyone-can-pay"] if flag & 0x80 else []) + \
+        (["--msg-preimage"] if pre else []) + ["-1", fi, "-0", fo]
+    with _ctx(cname), curvectx.scripted_randbelow(draws) as used:
+        out = cliutil.result(cli.run_main(argv, stdin=cliutil.fmt_in(key, fi)))
+        return (cliutil.fmt_out(out, fo), len(draws) - len(used))
+
+
+def _cli_sig_verify(cname, sg, pk, msg, pre, fi):
+    """`bits sig --verify --signature <sighex> <msghex> [--msg-preimage] -1 fi` with the public key on stdin"""
+    import cli, cliutil
+    argv = ["sig", msg.hex(), "--verify", "--signature", sg.hex()] + (["--msg-preimage"] if pre else []) + ["-1", fi]
+    with _ctx(cname):
+        out = cliutil.result(cli.run_main(argv, stdin=cliutil.fmt_in(pk, fi)))
+    if not out.endswith(os.linesep.encode()) or out.count(b"\n") != 1:
+        raise RuntimeError("CliVerifyPrinted:%r" % out[:30])
+    return out == b"OK" + os.linesep.encode()      # anything else printed is a verdict of "not valid"
+
+
+IMPL = {"cli_sig": _cli_sig, "cli_sig_verify": _cli_sig_verify, "sign_verify": _sign_verify, "sign": _sign, "verify": _verify, "der_enc": _der_enc, "der_dec": _der_dec, "sig": _sig, "sig_verify": _sig_verify}
 
 
 def model_call(c):
@@ -100,6 +125,12 @@ def model_call(c):
         return "c01_der_encode_sig", a
     if op == "der_dec":
         return "c01_der_decode_sig", a
+    if op == "cli_sig":
+        cv = CURVES[a[0]]
+        return "c01_sig", [cv["p"], cv["a"], cv["n"], cv["G"], a[1], a[2], a[3], a[4], a[5]]
+    if op == "cli_sig_verify":
+        cv = CURVES[a[0]]
+        return "c01_sig_verify", [cv["p"], cv["a"], cv["b"], cv["n"], cv["G"], a[1], a[2], a[3], a[4]]
     if op == "sig":
         cv = CURVES[a[0]]
         return "c01_sig", [cv["p"], cv["a"], cv["n"], cv["G"], a[1], a[2], a[3], a[4], a[5]]
@@ -172,6 +203,19 @@ def sec1(Q, compressed):
 def prop_oracle(c):
     """literal statement of C01 on the implementation, for the inputs of this case"""
     op, a = c["op"], c["args"]
+    if op.startswith("cli_"):
+        # the subcommand must do what the library call it wraps does (then the library call is judged as usual)
+        lib, la = op[4:], a[:6] if op == "cli_sig" else a[:5]
+
+        def run(f, args):
+            try:
+                return ("ok", f(*args))
+            except Exception as e:
+                return ("err", type(e).__name__)
+        got, want = run(IMPL[op], a), run(IMPL[lib], la)
+        if got != want and not (got[0] == want[0] == "err"):
+            return "`bits sig` gives %r where bits.%s gives %r" % (got, lib, want)
+        op, a = lib, la
     if op in ("sign", "sign_verify"):
         cname, draws, key, z = a
         cv = CURVES[cname]
@@ -360,6 +404,43 @@ def gen_cases(rng, tier):
                             rng.randbytes(rng.choice([0, 7, 40])) + f.to_bytes(4, "little"), f, False))
         out.append(case(cname + "-sig-bad-key", "sig", cname, [1, 2, 3], n.to_bytes(32, "big"), b"m", 1, False, strict=True))
         out.append(case(cname + "-sig-flag-overflow", "sig", cname, [1, 2, 3], (1).to_bytes(32, "big"), b"m", 256, False))
+    # --- the `bits sig` subcommand = bits.sig / bits.sig_verify = the model: every `sig` case whose flag the CLI can
+    #     express, re-run through main() in rotating input/output formats; then its signature through `sig --verify`
+    fm = ("raw", "hex", "bin")
+    k = 0
+    for c in [c for c in out if c["op"] == "sig" and c["args"][4] in FLAGS]:
+        cname, draws, key, msg, f, pre = c["args"]
+        if cname == "secp" and not T and k % 2:
+            k += 1
+            continue
+        out.append(case("cli-" + c["cls"], "cli_sig", cname, draws, key, msg, f, pre, fm[k % 3], fm[(k // 3) % 3],
+                        strict=c.get("strict", False)))
+        k += 1
+    for cname in ("c43",) if not T else ("c43", "c79", "c67"):
+        cv = CURVES[cname]
+        n = cv["n"]
+        for f in FLAGS:
+            for pre in (False, True):
+                d = rng.randrange(1, n)
+                Q = ref_mul(cv, d, cv["G"])
+                msg = rng.randbytes(rng.choice([0, 3, 33]))
+                m = msg + f.to_bytes(4, "little")
+                z = int.from_bytes(h256(m), "big")
+                for kk in range(1, n):
+                    R = ref_mul(cv, kk, cv["G"])
+                    r = R[0] % n
+                    s_ = (pow(kk, -1, n) * (z + r * d)) % n
+                    if r and s_:
+                        break
+                s_ = min(s_, n - s_)
+                sg = ref_der(r, s_) + bytes([f])
+                pk = sec1(Q, rng.random() < .5)
+                mm = m if pre else msg
+                out.append(case("cli-%s-sigv-valid" % cname, "cli_sig_verify", cname, sg, pk, mm, pre, fm[k % 3]))
+                out.append(case("cli-%s-sigv-mode-switch" % cname, "cli_sig_verify", cname, sg, pk, mm, not pre, fm[k % 3]))
+                out.append(case("cli-%s-sigv-flag-changed" % cname, "cli_sig_verify", cname, sg[:-1] + bytes([f ^ 0x80]), pk, mm, pre, fm[k % 3]))
+                out.append(case("cli-%s-sigv-msg-changed" % cname, "cli_sig_verify", cname, sg, pk, mm + b"\0", pre, fm[k % 3]))
+                k += 1
     return out
 
 
